@@ -226,6 +226,22 @@ theorem merge_single_range (ver lo hi : Nat) :
     cidrMerge [MItem.rng ver lo hi] = rangeCidrs ⟨ver, lo, hi⟩ := by
   simp [cidrMerge, MItem.toRange, mergeSweep, MRange.emit, rangeCidrs]
 
+/-- "that same minimal list": whenever the union of the inputs is the single interval
+    `[lo, hi]` of family `ver`, `cidr_merge` returns exactly what `IPRange(lo, hi).cidrs()` /
+    `iprange_to_cidrs(lo, hi)` return -/
+theorem merge_interval (xs : List MItem) (hwf : ∀ it ∈ xs, ItemWF it) (ver lo hi : Nat)
+    (hle : lo ≤ hi) (hhi : hi < 2 ^ width ver)
+    (h : ∀ u a, iden xs u a ↔ ver = u ∧ lo ≤ a ∧ a ≤ hi) :
+    cidrMerge xs = rangeCidrs ⟨ver, lo, hi⟩ := by
+  rw [← merge_single_range]
+  apply merge_union_indep xs _ hwf
+  · intro it hit
+    simp only [List.mem_cons, List.not_mem_nil, or_false] at hit
+    subst hit; exact ⟨hle, hhi⟩
+  · intro u a
+    rw [h u a]
+    simp [iden, MItem.toRange, rmem]
+
 /-- `iter_unique_ips(*args)`: strictly ascending by (version, address) — hence without
     duplicates — and exactly the addresses of the inputs -/
 theorem iter_unique_ips_spec (xs : List MItem) (hwf : ∀ it ∈ xs, ItemWF it) :
